@@ -26,6 +26,10 @@ def run_case(c):
         st = txt(c["style"])
         i = {"i": c["i"], "style": list(st)}
         R.append(call("int_to_note", i, lambda: notes.int_to_note(c["i"], st), nm))
+        # the same question with the style left to its default (sharps) and with the style given by keyword
+        if st == "#":
+            R.append(call("int_to_note", dict(i, given="default"), lambda: notes.int_to_note(c["i"]), nm))
+        R.append(call("int_to_note", dict(i, given="keyword"), lambda: notes.int_to_note(c["i"], accidentals=st), nm))
         if 0 <= c["i"] <= 11 and st in ("#", "b"):
             R.append(call("roundtrip", i, lambda: notes.note_to_int(notes.int_to_note(c["i"], st)), integer))
     return R
